@@ -230,6 +230,10 @@ def corrupt(rng, s):
 
 EXPONENTS = [Fraction(k) for k in range(-4, 5) if k] + [Fraction(1, 2), Fraction(-1, 2), Fraction(1, 3), Fraction(-1, 3),
                                                       Fraction(3, 2), Fraction(-3, 2)]
+# further exponents that sqrt / constant powers produce (used in the random streams): denominators up to the bound 10
+MORE_EXPONENTS = [Fraction(1, 4), Fraction(-1, 4), Fraction(3, 4), Fraction(2, 3), Fraction(-2, 3), Fraction(2, 5), Fraction(5, 2),
+                  Fraction(-5, 2), Fraction(1, 10), Fraction(-3, 10), Fraction(7, 10), Fraction(10, 3), Fraction(1, 6),
+                  Fraction(-1, 8), Fraction(12), Fraction(-10)]
 
 
 def py_exponent(fr):
